@@ -443,6 +443,9 @@ Definition get_mixed (t : st) (nb code base : Z) : st * option (nat * nat) :=
             let pg := mixed_pages nb in
             let s := length (sects t1) in
             let nq := qm_count pg MixedSizeQuantum in
+            (* sect->pgCount is a short: a section of more pages is not representable
+               (sectPrepare only asserts npages < 1<<16); the model refuses it *)
+            if PgCountMax <? pg then t1 else
             mkSt (sects t1 ++ [SMixed base pg [mkP 0 (nq * MixedSizeQuantum) KFront]])
                  (flist t1) (index t1) (Some (s, 0))
         end in
